@@ -996,6 +996,46 @@ def frame(ctx, flavours, scope, what):
     return out
 
 
+TRUNCATING = {'take', 'skip', 'step_by', 'take_while', 'skip_while', 'rev', 'nth', 'map_while', 'scan', 'fuse_take', 'dedup', 'dedup_by', 'dedup_by_key', 'truncate', 'split_off', 'drain'}
+
+
+def loop_src(ctx, flavours, scope, what):
+    """LOOP-SRC: the loops of the given functions walk their source completely and in order: no `take` / `skip` / `step_by` /
+    `take_while` / `skip_while` / `rev` / `map_while` .. between the collection (or node iterator) and the loop that consumes it.
+    (Which items a *search kernel* sees is decided by the kernel rules; this clause is for the plain walks: isolate, the DOT
+    writers, the serde writer and reader.)"""
+    F = ctx.F
+    out = []
+    rx = re.compile(scope)
+    for fl in flavours:
+        n = 0
+        for q, b in sorted(F.bodies.items()):
+            if F.flavour(b) != fl:
+                continue
+            owner = re.sub(r'(::\{closure#\d+\})+$', '', q)
+            rel = owner.replace(fl + '::', '', 1) if not owner.startswith('<') else owner.replace(fl + '::', '')
+            if not rx.search(rel):
+                continue
+            n += 1
+            pv = F.prov(b)
+            bad = []
+            for bi, t in calls_in(b):
+                nm = callee_name(t).split('::')[-1].rstrip('>')
+                recv_calls = []
+                if nm == 'next' and t['args']:
+                    recv_calls = [c[1].split('::')[-1].rstrip('>') for c in term_calls(pv.of_operand(t['args'][0]))]
+                elif nm in ('collect', 'for_each', 'extend', 'sum', 'count', 'fold', 'try_for_each') and t['args']:
+                    recv_calls = [c[1].split('::')[-1].rstrip('>') for a_ in t['args'] for c in term_calls(pv.of_operand(a_))]
+                hit = sorted(set(recv_calls) & TRUNCATING)
+                if hit:
+                    bad.append('%s at %s' % ('/'.join(hit), t['sp']))
+            out.append(Obl('LOOP-SRC', q, b['span'], '%s walks its source completely and in order' % what, not bad,
+                           'ok' if not bad else 'the iterated source is cut or reordered: ' + ', '.join(sorted(set(bad)))))
+        if n == 0:
+            out.append(Obl('LOOP-SRC', fl, '-', '%s present' % what, False, 'anchor missing: no function matches %s' % scope))
+    return out
+
+
 def orient(ctx, flavours):
     """ORIENT: an iterator reading the OUT list (or both) yields Edge(self, peer, v); one reading the IN list yields Edge(peer, self, v) (directed)"""
     from . import rules_guard as rg
